@@ -358,7 +358,7 @@ PROPS = {
     ),
     "C04": dict(
         module="Hb.Props.C04",
-        more_modules=["Hb.Props.C04SetLedger"],
+        more_modules=["Hb.Props.C04SetLedger", "Hb.Props.C04EntryPanic"],
         ties=[("scen", "panic-sat-nodrop", 6, 150), ("scen", "panic-sat-drop", 6, 150), ("scen", "panic-mixed", 8, 200),
               ("scen", "panic-entry", 5, 120), ("scen", "entry", 150, 4000), ("scen", "panic-table", 4, 100), ("scen", "panic-set", 3, 80), ("t1", {}), ("custom", extras_oracle)],
         backends=["sse2", "portable"],
@@ -378,6 +378,9 @@ PROPS = {
              "invariant, ownership ledger: no double drop / no leak unless a destructor panicked, len = #yielded = #found).",
         note="Trusted: Lean kernel, axioms propext/Classical.choice/Quot.sound; harness, hooks, protocol. Callback classes "
              "Into (entry_ref) and extend-iterator panics are covered by the entry profile once C14's tie is present. HashSet / "
+             "user closures that panic inside entry methods (replace_entry_with / and_replace_entry_with of Entry and of the raw "
+             "builders, or_insert_with, and_modify): Hb.Props.C04EntryPanic — exact table, log, ledger and no-double-drop for every "
+             "environment, and any later history stays safe; HashSet::get_or_insert_with's closure: model Hb/Model/SetPanic.lean, tie only. "
              "HashTable histories: valid_after_any_panic_set_table (Hb.Props.C02SetTable, re-checked by C02's check); unwinding ledger of "
              "HashSet-pair histories: Hb.Props.C04SetLedger (lost only by an unwound clear after a destructor panic; no set call "
              "leaks a block); table histories: Hb.Props.C03SetTable; serde visitors "
